@@ -137,7 +137,18 @@ def build(data):
                     body.append(["callbody", name])
             elif form == "import":
                 imp = [d for d in tdefs if g.chance(60)] or [tdefs[0]]
-                if any(x.get("import") for x in t["ns"]):
+                prev = [x for x in t["ns"] if x.get("import")]
+                if prev:
+                    # a second unnamed importing namespace (both tags end up on one source line): only names that neither
+                    # the first one imports nor the context checks (f1, f3) use, so that precedence never matters
+                    taken = {d for x in prev for d in (x["import"] if x["import"] != ["*"] else x.get("_names", []))}
+                    taken |= {d for x in t["ns"] for d in x["inline"]}
+                    imp = [d for d in tdefs if d not in taken and d not in ("f1", "f3")]
+                    if not imp or len(prev) > 1:
+                        continue
+                    t["ns"].append({"name": None, "file": sp, "kind": kind, "import": imp, "inline": []})
+                    for d in imp:
+                        body.append(["callimp", d, "'i%d'" % next(_cnt)])
                     continue
                 t["ns"].append({"name": None, "file": sp, "kind": kind, "import": imp, "inline": []})
                 for d in imp:
@@ -378,7 +389,8 @@ class Model:
                 uri, tgt = self.resolve(ns["file"], t["_uri"])
                 self.body(dict(tgt, _uri=uri), {}, {"self_uri": uri, "has_parent": False, "has_next": False}, via_ns=True)
             elif k == "callimp":
-                ns = [x for x in t["ns"] if x.get("import")][0]
+                ns = [x for x in t["ns"] if x.get("import") and (it[1] in x["import"] or it[1] in x["inline"]
+                                                                 or (x["import"] == ["*"] and it[1] in x.get("_names", [])))][0]
                 self.call_member(t, ns, it[1], eval(it[2]), ctx)
             elif k == "ctxvar":
                 self.out.append("<%s=%s>" % (it[1], CTX[it[1]]))
